@@ -20,6 +20,7 @@ func init() {
 }
 
 func runC14(w *World, r *Report, tier string) {
+	wireRule(w, r, "W1", "<auth mechanism=…>payload</auth>", wireSASLAuth)
 	r.Rule("O1", "choice: authPlain's mech argument is a range element of credential.mechanisms selected only through the true edge of isSupportedMech(elem, f.Mechanisms.Mechanism); isSupportedMech returns true only from equality with an element of its list")
 	r.Rule("O2", "capability table: the case constants leading to authPlain are exactly the mechanism constants of Password and OAuthToken")
 	r.Rule("O3", "no match ⇒ nothing sent: paths of authSASL that do not call authPlain perform no write and return NewConnError(_, true)")
